@@ -31,8 +31,8 @@ CLAIMS = {
                 text="Model: all sequences of valid/invalid/timeout messages beyond the (scaled) retry budget; real code: TLC-enumerated sequences, runs of 1..12 invalid messages, every hop limit 0..254, NS/NA, for advertiser, unicast-only advertiser and monitor; AdvReq: counted invalid, nothing else follows, listener receiving again at every quiescent point.",
                 note=_adv_note),
     "C10": dict(engine="advertiser+dialer", design_ref="4 C10; 2", technique="TLA+ model checking (TLC) + fault-sequence replay + TLC trace validation",
-                text="Session level: every injection point of read/write errors, timeouts and link events into a running advertiser/monitor (model: all interleavings; real code: enumerated histories) judged by AdvReq (prompt teardown, no use after cleanup, back-off 0..200 ms, 5 timeouts). Dialer level: every script of dial/task outcomes and cancel placements to depth 4 (6) replayed into the real Dialer and judged by DialReq (classification, <=50 attempts, 250 ms ladder capped at 3 s, prompt clean return).",
-                note=_adv_note),
+                text="Session level: every injection point of read/write errors, timeouts and link events into a running advertiser/monitor (model: all interleavings; real code: enumerated histories) judged by AdvReq (prompt teardown, no use after cleanup, back-off 0..200 ms, 5 timeouts). Dialer level: every script of dial/task outcomes and cancel placements to depth 4 (6) replayed into the real Dialer and judged by DialReq (classification, <=50 attempts, 250 ms ladder capped at 3 s, prompt clean return). Task-level recovery policy (a recoverable cause is followed by a re-dial, an unrecoverable one never, nothing ends the task without a cause) and two-interface runs under the real Server.Serve.",
+                note=_adv_note + "; one known finding (zero-delay re-dial loop when every dial succeeds, D19) is listed in known_findings.json"),
     "C11": dict(engine="dialer", design_ref="4 C11; 2", technique="TLA+ model checking (TLC) + outcome-script replay through a rewritten dial() + TLC trace validation",
                 text="TLC checks the Dialer model (dial unfolded into listen/get/set, cleanup, restore) against DialReq for every outcome script to the depth bound, for advertise mode with autoconf initially on/off and monitor mode; the scripts are replayed into the real Dialer whose dial() runs with substituted listen functions and a recording State; DialReq decides exactly-once cleanup, socket closure on every path and autoconf restore.",
                 note="Trusted: TLC, go1.26.8, the textual rewrite of three call targets inside dial(); real sockets/sysctls are not exercised"),
